@@ -271,8 +271,14 @@ def effect_task(kind, cls):
             for (s0, r0) in r0s:
                 for (s1, r1) in r1s:
                     viol.append(z3.And(s0.pcond(), s1.pcond(), z3.Not(related(cls, a, b)), r0 != r1))
-        lem.add("lemma:effect[%s]:write-%s-changes-only-documented-locations" % (kind, name), z3.Or(*viol) if viol else z3.BoolVal(True),
-                info={"detail": "write class %s %04X-%04X; read address b symbolic over 0000-FFFF" % (name, lo, hi)})
+        ob = lem.add("lemma:effect[%s]:write-%s-changes-only-documented-locations" % (kind, name), z3.Or(*viol) if viol else z3.BoolVal(True),
+                     info={"detail": "write class %s %04X-%04X; read address b symbolic over 0000-FFFF" % (name, lo, hi)})
+        if viol and len(r0s) == 1 and len(posts) == 1:
+            from engine.replay2 import script_info
+            inf = script_info(w, pre, "github.com/scottyw/tetromino/gameboy/memory", [(M + "Read", [m, b]), (M + "Write", [m, a, v]), (M + "Read", [m, b])],
+                              [r0s[0][1], None, r1s[0][1] if len(r1s) == 1 else None], None, [m.obj])
+            inf["detail"] = ob.info.get("detail")
+            ob.info = inf
         lem.notes.append("effect[%s]:%s: %d post-states, %d/%d read outcomes" % (kind, name, len(posts), len(r0s), len(r1s) if posts else 0))
         lem.stats = dict(eng.stats)
         return lem
